@@ -116,6 +116,27 @@ def check(F, rep):
                         users.add(npath)
     rep.ob("same_const", len(users) == 3, AT + "IROH_TXT_NAME", "record name const IROH_TXT_NAME used by name parser, packet reader and packet writer: %s" % sorted(u.rsplit('::', 1)[-1] for u in users), AT + "record-name")
 
+    # ---- sibling constructors of UserData agree on the length bound
+    UD = EI + "UserData"
+    sibs = [g for g in F.find(r"^<iroh_dns::endpoint_info::UserData as core::(str::traits::FromStr>::from_str|convert::TryFrom>::try_from)$")]
+    rep.floor("sibling_agreement", "UserData parsing constructors", len(sibs), 2)
+    shapes = {}
+    for g in sibs:
+        rep.fn(g)
+        gdu = defuse(g)
+        for cb, st, ts in cmp_tests(g, ops=("Le", "Lt", "Gt", "Ge")):
+            sides = []
+            for o in (st["rv"]["a"], st["rv"]["b"]):
+                if o["k"] == "const":
+                    sides.append("MAX" if (o.get("def") or "").endswith("UserData::MAX_LENGTH") else "const")
+                else:
+                    cs = {x[4].get("def") for x in gdu.origin_facts(op_base(o), kinds=("const",)) if x[4].get("def")}
+                    sides.append("MAX" if any(c.endswith("UserData::MAX_LENGTH") for c in cs) and not gdu.origin_calls(op_base(o)) else "len")
+            if "MAX" in sides:
+                shapes[g.path] = (st["rv"]["op"], tuple(sides))
+    rep.ob("sibling_agreement", len(shapes) == len(sibs) and len(set(shapes.values())) == 1, UD,
+           "FromStr and TryFrom<String> for UserData apply the same length bound (the resolver parses with FromStr what the publisher built with either): %s" % {k.split(" as ")[-1]: v for k, v in shapes.items()}, UD + "|length-bound-agrees")
+
     # ---- truncation
     rep.exact("truncation", "splitting calls in TxtAttrs::from_strings", len(splitters), 1)
     for b, t in splitters:
